@@ -490,6 +490,13 @@ pub fn eval_ct<T: Num + Bounded>(t: &CT, vars: &[T], ok: &mut bool) -> T {
                     }
                     x.div(&y)
                 }
+                "^" if !ct_has_var(a) && x.re() == 0.0 && b_has_var => {
+                    // constant zero base under a variable exponent: 0^y = 0 with derivative 0 for y > 0
+                    if !(y.re() >= MARGIN) {
+                        *ok = false;
+                    }
+                    x.mul(&y)
+                }
                 "^" => {
                     let e = y.re();
                     if !(e.abs() <= 8.0) {
@@ -551,4 +558,33 @@ pub fn float_text_reparseable(text: &str) -> bool {
     }
     let b = text.as_bytes();
     !(1..b.len()).any(|i| b[i] == b'e' && b[i - 1].is_ascii_digit() && i + 1 < b.len() && (b[i + 1] == b'-' || b[i + 1].is_ascii_digit()))
+}
+
+
+/// Sensitivity of a scalar function of the point to relative perturbations of 1e-11 in each
+/// coordinate: an estimate of how much rounding inside a *different but equivalent* evaluation
+/// order may legitimately move the value (ill-conditioned cases: poles, fract of huge numbers, long
+/// power chains). Returns None if a perturbed point leaves the domain.
+pub fn sensitivity(f: &dyn Fn(&[f64]) -> Option<f64>, point: &[f64]) -> Option<f64> {
+    let base = f(point)?;
+    let mut s: f64 = 0.0;
+    for k in 0..point.len() {
+        for sign in [1.0, -1.0] {
+            let mut p = point.to_vec();
+            let h = sign * 1e-11 * p[k].abs().max(1e-3);
+            p[k] += h;
+            let v = f(&p)?;
+            s = s.max((v - base).abs());
+        }
+    }
+    if s.is_finite() {
+        Some(s)
+    } else {
+        None
+    }
+}
+
+/// |a - b| within `tol` relative (plus absolute `tol`) or within 10x the conditioning estimate
+pub fn close_cond(a: f64, b: f64, tol: f64, sens: f64) -> bool {
+    close(a, b, tol) || (a - b).abs() <= 10.0 * sens
 }
